@@ -13,6 +13,8 @@ var Families = map[string][]string{
 	"C04": {"hosts"},
 	"C05": {"hosts"},
 	"C06": {"hosts"},
+	"C11": {"dhcp"},
+	"C12": {"dhcp"},
 }
 
 // Generate builds the scenario for (property, family, seed).
@@ -20,6 +22,8 @@ func Generate(prop, family string, seed uint64, tier string) Scenario {
 	switch family {
 	case "hosts":
 		return genHosts(prop, seed, tier)
+	case "dhcp":
+		return genDHCP(prop, seed, tier)
 	}
 	panic("unknown family " + family)
 }
@@ -47,6 +51,8 @@ func Driver(sc Scenario, trace bool) func() {
 		switch sc.Family {
 		case "hosts":
 			runHosts(e)
+		case "dhcp":
+			runDHCP(e)
 		default:
 			e.violate("infra.setup", "family", fmt.Sprintf("unknown family %q", sc.Family))
 		}
